@@ -1,2 +1,407 @@
-//! placeholder, filled in for C13-C15
-pub fn exec_gadget(_o: &str, _args: &[&str]) -> String { "unsupported".into() }
+//! R1CS gadget operations of the line protocol (`g.<op> key=value …`), r1cs build with `--cfg decaf377_verif`.
+use super::*;
+use ark_ff::{Field, PrimeField, ToConstraintField, Zero};
+use ark_groth16::{r1cs_to_qap::LibsnarkReduction, Groth16, ProvingKey, VerifyingKey};
+use ark_r1cs_std::fields::fp::FpVar;
+use ark_r1cs_std::prelude::*;
+use ark_r1cs_std::R1CSVar;
+use ark_relations::r1cs::{ConstraintSynthesizer, ConstraintSystem, ConstraintSystemRef, OptimizationGoal, SynthesisError, SynthesisMode};
+use ark_serialize::CanonicalDeserialize;
+use ark_snark::SNARK;
+use decaf377::r1cs::fqvar_ext::FqVarExtension;
+use decaf377::r1cs::{verif, ElementVar, FqVar};
+use decaf377::{Bls12_377, Element, Fq, Fr};
+use std::collections::HashMap as Map;
+
+type R<T> = Result<T, String>;
+
+fn se(e: SynthesisError) -> String {
+    format!("synth-err:{:?}", e).replace(' ', "_")
+}
+
+struct Args<'a> {
+    kv: Vec<(&'a str, &'a str)>,
+}
+impl<'a> Args<'a> {
+    fn parse(args: &[&'a str]) -> Self {
+        let mut kv = Vec::new();
+        for a in args {
+            match a.find('=') {
+                Some(i) => kv.push((&a[..i], &a[i + 1..])),
+                None => kv.push((*a, "")),
+            }
+        }
+        Args { kv }
+    }
+    fn get(&self, k: &str) -> Option<&'a str> {
+        self.kv.iter().find(|(a, _)| *a == k).map(|(_, v)| *v)
+    }
+    fn all(&self, k: &str) -> Vec<&'a str> {
+        self.kv.iter().filter(|(a, _)| *a == k).map(|(_, v)| *v).collect()
+    }
+    fn fq(&self, k: &str) -> R<Fq> {
+        fq_of(self.get(k).ok_or("bad-op")?).ok_or_else(|| "bad-op".to_string())
+    }
+    /// element from `k=<encoding hex>` (decoded natively), `kxy=<x>,<y>` (unchecked) or `kp=<program>` (register E)
+    fn elem(&self, k: &str) -> R<Element> {
+        if let Some(h) = self.get(k) {
+            let b = unhex(h).ok_or("bad-op")?;
+            return Element::try_from(&b[..]).map_err(|_| "bad-elem".to_string());
+        }
+        if let Some(xy) = self.get(&format!("{}xy", k)) {
+            let mut it = xy.split(',');
+            let x = fq_of(it.next().ok_or("bad-op")?).ok_or("bad-op")?;
+            let y = fq_of(it.next().ok_or("bad-op")?).ok_or("bad-op")?;
+            return Ok(Element::from_affine_unchecked(x, y));
+        }
+        if let Some(p) = self.get(&format!("{}p", k)) {
+            return crate::group_ark::eval_elem(p);
+        }
+        Err("bad-op".into())
+    }
+    fn hints(&self) -> R<Vec<Option<(bool, Fq)>>> {
+        let mut out = Vec::new();
+        for h in self.all("hint") {
+            if h == "honest" {
+                out.push(None);
+            } else {
+                let mut it = h.split(',');
+                let f = it.next().ok_or("bad-op")? == "1";
+                let y = fq_of(it.next().ok_or("bad-op")?).ok_or("bad-op")?;
+                out.push(Some((f, y)));
+            }
+        }
+        Ok(out)
+    }
+}
+
+fn fqh(x: &Fq) -> String {
+    tohex(&x.to_bytes_le())
+}
+fn absq(x: Fq) -> Fq {
+    if x.to_bytes_le()[0] & 1 == 1 { -x } else { x }
+}
+fn ench(e: &Element) -> String {
+    tohex(&e.vartime_compress().0)
+}
+
+fn elem_value(v: &ElementVar) -> String {
+    match catch_unwind(AssertUnwindSafe(|| v.value())) {
+        Ok(Ok(e)) => ench(&e),
+        Ok(Err(_)) => "novalue".into(),
+        Err(_) => "offcurve".into(),
+    }
+}
+
+fn new_cs(setup: bool) -> ConstraintSystemRef<Fq> {
+    let cs = ConstraintSystem::<Fq>::new_ref();
+    cs.set_optimization_goal(OptimizationGoal::Constraints);
+    if setup {
+        cs.set_mode(SynthesisMode::Setup);
+    }
+    cs
+}
+
+fn finish(cs: &ConstraintSystemRef<Fq>, out: String) -> String {
+    let sat = match cs.is_satisfied() {
+        Ok(true) => "1",
+        Ok(false) => "0",
+        Err(_) => "err",
+    };
+    format!("sat={} out={} nc={} nw={} ni={}", sat, out, cs.num_constraints(), cs.num_witness_variables(), cs.num_instance_variables())
+}
+
+fn matrices_digest(cs: &ConstraintSystemRef<Fq>) -> String {
+    cs.finalize();
+    let m = match cs.to_matrices() {
+        Some(m) => m,
+        None => return "nomatrices".into(),
+    };
+    let mut h = DefaultHasher::new();
+    for mat in [&m.a, &m.b, &m.c] {
+        mat.len().hash(&mut h);
+        for row in mat.iter() {
+            row.len().hash(&mut h);
+            for (coeff, idx) in row.iter() {
+                coeff.to_bytes_le().hash(&mut h);
+                idx.hash(&mut h);
+            }
+        }
+    }
+    format!("{:016x}:nc={}:nw={}:ni={}", h.finish(), m.num_constraints, m.num_witness_variables, m.num_instance_variables)
+}
+
+/// allocate an element as a plain witness (curve equation only, no decoding), to exercise one gadget in isolation
+fn alloc_plain(cs: &ConstraintSystemRef<Fq>, e: Element) -> R<ElementVar> {
+    <ElementVar as CurveVar<Element, Fq>>::new_variable_omit_prime_order_check(cs.clone(), || Ok(e), AllocationMode::Witness).map_err(se)
+}
+
+/// synthesise gadget `op`; returns the textual output value
+fn synth(op: &str, a: &Args, cs: &ConstraintSystemRef<Fq>) -> R<String> {
+    match op {
+        "isqrt" => {
+            let x = a.fq("x")?;
+            let xv = FqVar::new_witness(cs.clone(), || Ok(x)).map_err(se)?;
+            let (f, y) = xv.isqrt().map_err(se)?;
+            let fv = f.value().map(|b| if b { "1" } else { "0" }).unwrap_or("?");
+            let yv = y.value().map(|v| fqh(&absq(v))).unwrap_or_else(|_| "?".into());
+            Ok(format!("{},{}", fv, yv))
+        }
+        "isneg" | "isnonneg" | "abs" => {
+            let x = a.fq("x")?;
+            let xv = FqVar::new_witness(cs.clone(), || Ok(x)).map_err(se)?;
+            match op {
+                "isneg" => Ok(xv.is_negative().map_err(se)?.value().map(|b| if b { "1" } else { "0" }).unwrap_or("?").to_string()),
+                "isnonneg" => Ok(xv.is_nonnegative().map_err(se)?.value().map(|b| if b { "1" } else { "0" }).unwrap_or("?").to_string()),
+                _ => Ok(xv.abs().map_err(se)?.value().map(|v| fqh(&v)).unwrap_or_else(|_| "?".into())),
+            }
+        }
+        "compress" => {
+            let e = a.elem("e")?;
+            let ev = alloc_plain(cs, e)?;
+            let s = ev.compress_to_field().map_err(se)?;
+            Ok(s.value().map(|v| fqh(&v)).unwrap_or_else(|_| "?".into()))
+        }
+        "decompress" => {
+            let s = a.fq("s")?;
+            let sv = FqVar::new_witness(cs.clone(), || Ok(s)).map_err(se)?;
+            let ev = ElementVar::decompress_from_field(sv).map_err(se)?;
+            Ok(elem_value(&ev))
+        }
+        "elligator" => {
+            let r0 = a.fq("r0")?;
+            let rv = FqVar::new_witness(cs.clone(), || Ok(r0)).map_err(se)?;
+            let ev = ElementVar::encode_to_curve(&rv).map_err(se)?;
+            Ok(elem_value(&ev))
+        }
+        "add" | "sub" | "iseq" | "enforce_eq" | "enforce_neq" | "select" | "add_asg" | "sub_asg" | "add_ref" | "sub_ref" | "add_const" | "sub_const"
+        | "add_const_asg" | "sub_const_asg" => {
+            let x = a.elem("a")?;
+            let y = a.elem("b")?;
+            let xv = alloc_plain(cs, x)?;
+            let yv = alloc_plain(cs, y)?;
+            match op {
+                "add" => Ok(elem_value(&(xv + yv))),
+                "sub" => Ok(elem_value(&(xv - yv))),
+                "add_ref" => Ok(elem_value(&(xv + &yv))),
+                "sub_ref" => Ok(elem_value(&(xv - &yv))),
+                "add_asg" => { let mut z = xv; z += yv; Ok(elem_value(&z)) }
+                "sub_asg" => { let mut z = xv; z -= yv; Ok(elem_value(&z)) }
+                "add_const" => Ok(elem_value(&(xv + y))),
+                "sub_const" => Ok(elem_value(&(xv - y))),
+                "add_const_asg" => { let mut z = xv; z += y; Ok(elem_value(&z)) }
+                "sub_const_asg" => { let mut z = xv; z -= y; Ok(elem_value(&z)) }
+                "iseq" => Ok(xv.is_eq(&yv).map_err(se)?.value().map(|b| if b { "1" } else { "0" }).unwrap_or("?").to_string()),
+                "enforce_eq" => { xv.enforce_equal(&yv).map_err(se)?; Ok("-".into()) }
+                "enforce_neq" => { xv.enforce_not_equal(&yv).map_err(se)?; Ok("-".into()) }
+                _ => {
+                    let c = a.get("c").unwrap_or("0") == "1";
+                    let cv = Boolean::new_witness(cs.clone(), || Ok(c)).map_err(se)?;
+                    Ok(elem_value(&ElementVar::conditionally_select(&cv, &xv, &yv).map_err(se)?))
+                }
+            }
+        }
+        "neg" | "dbl" => {
+            let x = a.elem("a")?;
+            let xv = alloc_plain(cs, x)?;
+            if op == "neg" {
+                Ok(elem_value(&xv.negate().map_err(se)?))
+            } else {
+                let mut z = xv;
+                z.double_in_place().map_err(se)?;
+                Ok(elem_value(&z))
+            }
+        }
+        "scalarmul" => {
+            let x = a.elem("a")?;
+            let bits = a.get("bits").ok_or("bad-op")?;
+            let xv = alloc_plain(cs, x)?;
+            let mut bv = Vec::new();
+            for ch in bits.chars() {
+                bv.push(Boolean::new_witness(cs.clone(), || Ok(ch == '1')).map_err(se)?);
+            }
+            Ok(elem_value(&xv.scalar_mul_le(bv.iter()).map_err(se)?))
+        }
+        "alloc_witness" => {
+            let e = a.elem("e")?;
+            let ev = ElementVar::new_witness(cs.clone(), || Ok(e)).map_err(se)?;
+            Ok(elem_value(&ev))
+        }
+        "alloc_witness_aff" => {
+            let e = a.elem("e")?;
+            let aff: <Element as ark_ec::CurveGroup>::Affine = e.into();
+            let ev = <ElementVar as AllocVar<_, Fq>>::new_witness(cs.clone(), || Ok(aff)).map_err(se)?;
+            Ok(elem_value(&ev))
+        }
+        "alloc_constant" => {
+            let e = a.elem("e")?;
+            let ev = ElementVar::new_constant(cs.clone(), e).map_err(se)?;
+            Ok(elem_value(&ev))
+        }
+        "alloc_input" => {
+            let e = a.elem("e")?;
+            let ev = ElementVar::new_input(cs.clone(), || Ok(e)).map_err(se)?;
+            let v = elem_value(&ev);
+            let inst: Vec<String> = cs.borrow().unwrap().instance_assignment.iter().map(fqh).collect();
+            let tfe: Vec<String> = e.to_field_elements().unwrap().iter().map(fqh).collect();
+            Ok(format!("{};inst={};tfe={}", v, inst.join(","), tfe.join(",")))
+        }
+        "alloc_input_fq" => {
+            let s = a.fq("s")?;
+            let ev = <ElementVar as AllocVar<Fq, Fq>>::new_input(cs.clone(), || Ok(s)).map_err(se)?;
+            let inst: Vec<String> = cs.borrow().unwrap().instance_assignment.iter().map(fqh).collect();
+            let c = ev.compress_to_field().map_err(se)?.value().map(|v| fqh(&v)).unwrap_or_else(|_| "?".into());
+            Ok(format!("{};inst={}", c, inst.join(",")))
+        }
+        "lazy" => {
+            // from=enc s=<fq> | from=elem e=<enc>; ops=enc,elem,…  -> per step value and constraint delta
+            let ops = a.get("ops").unwrap_or("");
+            let var = if a.get("from") == Some("enc") {
+                let s = a.fq("s")?;
+                <ElementVar as AllocVar<Fq, Fq>>::new_witness(cs.clone(), || Ok(s)).map_err(se)?
+            } else {
+                alloc_plain(cs, a.elem("e")?)?
+            };
+            let mut outs = Vec::new();
+            for o in ops.split(',').filter(|s| !s.is_empty()) {
+                let before = cs.num_constraints();
+                let v = match o {
+                    "enc" => var.compress_to_field().map_err(se)?.value().map(|v| fqh(&v)).unwrap_or_else(|_| "?".into()),
+                    "elem" => elem_value(&var),
+                    "clone_enc" => var.clone().compress_to_field().map_err(se)?.value().map(|v| fqh(&v)).unwrap_or_else(|_| "?".into()),
+                    "clone_elem" => elem_value(&var.clone()),
+                    _ => return Err("bad-op".into()),
+                };
+                outs.push(format!("{}:{}+{}", o, v, cs.num_constraints() - before));
+            }
+            Ok(outs.join("|"))
+        }
+        _ => Err("unsupported".into()),
+    }
+}
+
+struct Circuit<F: FnOnce(ConstraintSystemRef<Fq>) -> Result<(), SynthesisError>>(F);
+impl<F: FnOnce(ConstraintSystemRef<Fq>) -> Result<(), SynthesisError>> ConstraintSynthesizer<Fq> for Circuit<F> {
+    fn generate_constraints(self, cs: ConstraintSystemRef<Fq>) -> Result<(), SynthesisError> {
+        (self.0)(cs)
+    }
+}
+
+fn load_keys(name: &str) -> R<(ProvingKey<Bls12_377>, VerifyingKey<Bls12_377>)> {
+    let dir = std::env::var("VERIF_REPO").unwrap_or_else(|_| "/repo".into());
+    let pk = std::fs::read(format!("{}/tests/test_vectors/{}_pk.bin", dir, name)).map_err(|e| format!("io:{}", e))?;
+    let vk = std::fs::read(format!("{}/tests/test_vectors/{}_vk.param", dir, name)).map_err(|e| format!("io:{}", e))?;
+    let pk = ProvingKey::deserialize_uncompressed_unchecked(&pk[..]).map_err(|_| "bad-pk")?;
+    let vk = VerifyingKey::deserialize_uncompressed(&vk[..]).map_err(|_| "bad-vk")?;
+    Ok((pk, vk))
+}
+
+/// the seven pinned circuits of tests/groth16_gadgets.rs, re-stated through the public API
+fn pinned(name: &str, a: &Args) -> R<(Box<dyn FnOnce(ConstraintSystemRef<Fq>) -> Result<(), SynthesisError>>, Vec<Fq>)> {
+    match name {
+        "compression" => {
+            let e = a.elem("e")?;
+            let fe = e.vartime_compress_to_field();
+            Ok((Box::new(move |cs| {
+                let w = ElementVar::new_witness(cs.clone(), || Ok(e))?;
+                let p = FqVar::new_input(cs, || Ok(fe))?;
+                p.enforce_equal(&w.compress_to_field()?)
+            }), vec![fe]))
+        }
+        "decompression" => {
+            let e = a.elem("e")?;
+            let fe = e.vartime_compress_to_field();
+            Ok((Box::new(move |cs| {
+                let w = FqVar::new_witness(cs.clone(), || Ok(fe))?;
+                let p = ElementVar::new_input(cs, || Ok(e))?;
+                let t = ElementVar::decompress_from_field(w)?;
+                p.enforce_equal(&t)
+            }), e.to_field_elements().unwrap()))
+        }
+        "elligator" => {
+            let r0 = a.fq("r0")?;
+            let e = Element::encode_to_curve(&r0);
+            Ok((Box::new(move |cs| {
+                let w = FqVar::new_witness(cs.clone(), || Ok(r0))?;
+                let p = ElementVar::new_input(cs, || Ok(e))?;
+                let t = ElementVar::encode_to_curve(&w)?;
+                p.enforce_equal(&t)
+            }), e.to_field_elements().unwrap()))
+        }
+        "discrete_log" => {
+            let sc = unhex(a.get("scalar").ok_or("bad-op")?).ok_or("bad-op")?;
+            let sc: [u8; 32] = sc.try_into().map_err(|_| "bad-op")?;
+            let public = Fr::from_le_bytes_mod_order(&sc[..]) * Element::GENERATOR;
+            Ok((Box::new(move |cs| {
+                let w = UInt8::new_witness_vec(cs.clone(), &sc)?;
+                let cp = public.vartime_compress_to_field();
+                let p: ElementVar = AllocVar::<Fq, Fq>::new_input(cs.clone(), || Ok(cp))?;
+                let b = ElementVar::new_constant(cs, Element::GENERATOR)?;
+                let t = b.scalar_mul_le(w.to_bits_le()?.iter())?;
+                p.enforce_equal(&t)
+            }), public.to_field_elements().unwrap()))
+        }
+        "public_element_input" => {
+            let e = a.elem("e")?;
+            Ok((Box::new(move |cs| {
+                let _p = ElementVar::new_input(cs, || Ok(e))?;
+                Ok(())
+            }), e.to_field_elements().unwrap()))
+        }
+        "negation" => {
+            let e = a.elem("e")?;
+            let n = -e;
+            Ok((Box::new(move |cs| {
+                let w = ElementVar::new_witness(cs.clone(), || Ok(e))?;
+                let p = ElementVar::new_input(cs, || Ok(n))?;
+                let t = w.negate()?;
+                p.enforce_equal(&t)
+            }), n.to_field_elements().unwrap()))
+        }
+        _ => Err("unsupported".into()),
+    }
+}
+
+pub fn exec_gadget(op: &str, args: &[&str]) -> String {
+    let a = Args::parse(args);
+    let r: R<String> = (|| {
+        if op == "groth16" {
+            let name = a.get("circuit").ok_or("bad-op")?;
+            let (pk, vk) = load_keys(name)?;
+            let (circ, public) = pinned(name, &a)?;
+            let mut rng = rand_chacha::ChaChaRng::seed_from_u64(a.get("seed").and_then(|s| s.parse().ok()).unwrap_or(1));
+            use rand_core::SeedableRng;
+            let proof = Groth16::<Bls12_377, LibsnarkReduction>::prove(&pk, Circuit(circ), &mut rng).map_err(|e| format!("prove-err:{:?}", e).replace(' ', "_"))?;
+            let pvk = Groth16::<Bls12_377, LibsnarkReduction>::process_vk(&vk).map_err(|_| "vk-err")?;
+            let ok = Groth16::<Bls12_377, LibsnarkReduction>::verify_with_processed_vk(&pvk, &public, &proof).map_err(|_| "verify-err")?;
+            let mut wrong = public.clone();
+            wrong[0] += Fq::from(1u64);
+            let bad = Groth16::<Bls12_377, LibsnarkReduction>::verify_with_processed_vk(&pvk, &wrong, &proof).map_err(|_| "verify-err")?;
+            return Ok(format!("verify={} wrong_input={}", ok as u8, bad as u8));
+        }
+        if op == "shape" {
+            let g = a.get("gadget").ok_or("bad-op")?;
+            let mut digests = Vec::new();
+            for setup in [false, true] {
+                verif::set_hints(a.hints()?);
+                let cs = new_cs(setup);
+                match catch_unwind(AssertUnwindSafe(|| synth(g, &a, &cs))) {
+                    Ok(Ok(_)) => {}
+                    Ok(Err(e)) => { if !setup { return Err(e); } }
+                    Err(_) => { if !setup { return Err("panic".into()); } }
+                }
+                digests.push(matrices_digest(&cs));
+            }
+            return Ok(format!("prove={} setup={}", digests[0], digests[1]));
+        }
+        verif::set_hints(a.hints()?);
+        let cs = new_cs(false);
+        let out = synth(op, &a, &cs)?;
+        Ok(finish(&cs, out))
+    })();
+    verif::set_hints(vec![]);
+    match r {
+        Ok(s) => s,
+        Err(e) => e,
+    }
+}
